@@ -348,11 +348,51 @@ class Gen:
         choices = ['local', 'call', 'return', 'assert']
         if depth < 3:
             choices += ['if', 'while', 'do', 'for', 'block', 'yieldswitch']
+        if depth < 2 and not self.f.get('stmts'):
+            # constructs that are no entities themselves but CONTAIN entities: whatever is nested in them must be found
+            choices += ['try', 'foreach', 'switch', 'throw', 'sync', 'lambda', 'ternary']
         if self.loop_depth > 0:
             choices += ['break', 'continue']
         if self.f.get('stmts'):
             choices = [c for c in choices if c in self.f['stmts']] or choices
         k = rng.choice(choices)
+        if k == 'try':
+            e.w('try'); e.osp(); self.block(depth + 1); e.osp(); e.w('catch'); e.osp(); e.w('('); e.w(rng.choice(EXC)); e.sp(); e.w('ex'); e.w(')'); e.osp()
+            self.block(depth + 1)
+            if rng.random() < 0.4:
+                e.osp(); e.w('finally'); e.osp(); self.block(depth + 1)
+            return self.src_between(s[0], e.n)
+        if k == 'foreach':
+            e.w('for'); e.osp(); e.w('('); e.w('String'); e.sp(); e.w('it'); e.sp(); e.w(':'); e.sp(); e.w(rng.choice(IDS)); e.w(')'); e.osp()
+            self.loop_depth += 1
+            self.block(depth + 1)
+            self.loop_depth -= 1
+            return self.src_between(s[0], e.n)
+        if k == 'switch':
+            e.w('switch'); e.osp(); e.w('('); e.w(rng.choice(IDS)); e.w(')'); e.osp(); e.w('{')
+            e.indent += 1
+            for lab in ('case 1:', 'case 2:', 'default:'):
+                e.newline(); e.w(lab); e.sp(); self.simple_stmt()
+                if rng.random() < 0.5:
+                    e.sp(); self.block(depth + 1)
+            e.indent -= 1
+            e.newline(); e.w('}')
+            return self.src_between(s[0], e.n)
+        if k == 'throw':
+            e.w('throw'); e.sp(); self.new(1); e.tight(); e.w(';')
+            return self.src_between(s[0], e.n)
+        if k == 'sync':
+            e.w('synchronized'); e.osp(); e.w('('); e.w('this'); e.w(')'); e.osp(); self.block(depth + 1)
+            return self.src_between(s[0], e.n)
+        if k == 'lambda':
+            e.w('Runnable'); e.sp(); e.w('r%d' % rng.randint(0, 99)); e.osp(); e.w('='); e.osp(); e.w('('); e.w(')'); e.osp(); e.w('->'); e.osp()
+            self.block(depth + 1)
+            e.tight(); e.w(';')
+            return self.src_between(s[0], e.n)
+        if k == 'ternary':
+            e.w(rng.choice(IDS)); e.osp(); e.w('='); e.osp(); self.cond(); e.osp(); e.w('?'); e.osp(); self.call(1); e.osp(); e.w(':'); e.osp()
+            e.w('('); e.w('int'); e.w(')'); e.sp(); self.call(1); e.tight(); e.w(';')
+            return self.src_between(s[0], e.n)
         if k == 'local':
             return self.local_var()
         if k == 'call':
